@@ -206,7 +206,9 @@ class Program(object):
         """
         lines = []
         for symbol, value in self.symbol_table.items():
-            lines.append("${} {}".format(value.hex().ljust(4, ' '), symbol))
+            # a negative value is listed as its 16-bit two's complement, however it was defined
+            digits = value.hex(size=4) if value.is_negative() else value.hex()
+            lines.append("${} {}".format(digits.ljust(4, ' '), symbol))
         return lines
 
     def get_statements(self):
